@@ -336,11 +336,12 @@ func run(c *core.Ctx) {
 		{"all-heads depth1 width3", full, 1, 3},
 		{"4-heads depth2 width2", three, 2, 2},
 		{"2-heads depth3 width2", two, 3, 2},
+		{"2-heads depth2 width3", two, 2, 3},
 	}
 	if c.Thorough() {
 		spaces = append(spaces,
 			space{"all-heads depth2 width2", full, 2, 2},
-			space{"2-heads depth2 width3", two, 2, 3},
+			space{"3-heads depth2 width3", three[:3], 2, 3},
 		)
 	}
 	var names []string
@@ -357,6 +358,32 @@ func run(c *core.Ctx) {
 			}
 		})
 	}
+	// wide argument lists: every width 1..9 (12), every non-empty set of <=2 positions holding a generic
+	// argument (with 1 or 2 arguments of its own), the others plain; every argument is a different name
+	maxW := c.Pick(9, 12)
+	for w := 1; w <= maxW; w++ {
+		for i := 0; i < w; i++ {
+			for j := i; j < w; j++ {
+				for inner := 1; inner <= 2; inner++ {
+					if !c.Next() {
+						continue
+					}
+					root := &node{path: "x.io/p", name: "Wide"}
+					for k := 0; k < w; k++ {
+						a := &node{path: fmt.Sprintf("x.io/arg%d/pkg", k), name: fmt.Sprintf("A%d", k)}
+						if k == i || k == j {
+							for m := 0; m < inner; m++ {
+								a.args = append(a.args, &node{path: fmt.Sprintf("x.io/inner%d/of%d", m, k), name: fmt.Sprintf("I%d", m)})
+							}
+						}
+						root.args = append(root.args, a)
+					}
+					checkRef(c, root)
+				}
+			}
+		}
+	}
+	c.Bound("wide_argument_lists", fmt.Sprintf("widths 1..%d, generic arguments at every set of <=2 positions, 1 or 2 inner arguments", maxW))
 	c.Bound("spaces", names)
 	c.Bound("paths", allPaths)
 	c.Bound("idents", idents)
